@@ -14,6 +14,11 @@ AST (python tuples/lists; JSON round trip turns tuples into lists, everything be
   cond : ("EQ"|"NE",a,b)
   stmt : ("X",e) ("G",e) ("D",[(x,default|None)..],[(spread,e)..]) ("I",cond,then,else) ("F",lbl,x,n,body) ("W",lbl,cond,body)
          ("TR",block,(x,catch)|None,finally|None) ("O",lbl,x,("a",args)|("t",spec),body) ("RT",e) ("TH",e) ("BK",lbl) ("CN",lbl)
+         ("BL",d,val,body)   block scope at nesting depth d (1..3): { let s = val; closures capturing s; body }
+  variables: 0..5 = function-level x0..x5; 6+d = the binding named `s` of the block scope at depth d (6 = function level).
+  All these bindings have the SAME name `s` in the JavaScript (shadowing) and are captured by closures (so each lives in its
+  own scope object): inside depth d, `s` means slot 6+d; an outer slot 6+d' (d' < d) is reached through the closures
+  GS<d'>() / SS<d'>(v) / WS<d'>(v) declared with it.
   spec : (id, is_gen, ret(0 none,1 ok,2 throws), thr(0 none,1 rethrow,2 done,3 continue), [items]);  lbl : None | int
 """
 import json, os, itertools, hashlib, time
@@ -45,6 +50,8 @@ def W(cond, body, lbl=None): return ("W", lbl, cond, body)
 def O(x, src, body, lbl=None): return ("O", lbl, x, src, body)
 def BK(lbl=None): return ("BK", lbl)
 def CN(lbl=None): return ("CN", lbl)
+def BL(d, val, body): return ("BL", d, val, body)
+def SV_(d): return ("V", 6 + d)
 
 def spec(id, is_gen, ret=0, thr=0, items=("i1", "i2")): return (id, int(is_gen), ret, thr, list(items))
 
@@ -110,6 +117,7 @@ def tok_s(s):
     if t == "TH": return ["TH"] + tok_e(s[1])
     if t == "BK": return ["BK"] + tok_lbl(s[1])
     if t == "CN": return ["CN"] + tok_lbl(s[1])
+    if t == "BL": return ["BL", str(6 + s[1]), s[2]] + tok_block(s[3])
     raise ValueError(s)
 
 # ---- JavaScript
@@ -122,59 +130,71 @@ def js_spec(s):
 def js_lbl(l): return "" if l is None else "L%d: " % l
 def js_tgt(l): return "" if l is None else " L%d" % l
 
+def scope_decl(d, val):
+    return "let s = %s; const GS%d = () => s; const SS%d = v => (s = v); const WS%d = v => (s = s + v); " % (js_val(val), d, d, d)
+
 class JS:
+    """Renders with the current block-scope depth `d` (0 = function level)."""
     def __init__(self, mode="gen", probe=False):
         self.mode, self.probe = mode, probe
 
-    def args(self, args):
-        return ", ".join(("..." if sp else "") + self.e(e) for sp, e in args)
+    def args(self, args, d):
+        return ", ".join(("..." if sp else "") + self.e(e, d) for sp, e in args)
 
-    def e(self, e):
+    def var(self, x, d):
+        if x < 6: return "x%d" % x
+        return "s" if x - 6 == d else "GS%d()" % (x - 6)
+
+    def e(self, e, d=0):
         t = e[0]
         if t == "L": return js_val(e[1])
-        if t == "V": return "x%d" % e[1]
-        if t == "A": return "(%s + %s)" % (self.e(e[1]), self.e(e[2]))
+        if t == "V": return self.var(e[1], d)
+        if t == "A": return "(%s + %s)" % (self.e(e[1], d), self.e(e[2], d))
         if t == "Y":
-            if self.mode == "async": return "(await P(%s))" % self.e(e[1])
-            if self.probe: return "PRV(1, yield PRV(0, %s))" % self.e(e[1])
-            return "(yield %s)" % self.e(e[1])
+            if self.mode == "async": return "(await P(%s))" % self.e(e[1], d)
+            if self.probe: return "PRV(1, yield PRV(0, %s))" % self.e(e[1], d)
+            return "(yield %s)" % self.e(e[1], d)
         if t == "YS": return "(yield* %s)" % js_spec(e[1])
-        if t == "C": return "J(%s)" % self.args(e[1])
-        if t == "T": return "`" + e[1] + "".join("${%s}%s" % (self.e(ex), l) for ex, l in e[2]) + "`"
-        if t == "=": return "(x%d = %s)" % (e[1], self.e(e[2]))
-        if t == "B": return "B%d(%s)" % (e[1], self.e(e[2]))
+        if t == "C": return "J(%s)" % self.args(e[1], d)
+        if t == "T": return "`" + e[1] + "".join("${%s}%s" % (self.e(ex, d), l) for ex, l in e[2]) + "`"
+        if t == "=":
+            if e[1] < 6 or e[1] - 6 == d: return "(%s = %s)" % (self.var(e[1], d), self.e(e[2], d))
+            return "SS%d(%s)" % (e[1] - 6, self.e(e[2], d))
+        if t == "B":
+            return ("B%d(%s)" % (e[1], self.e(e[2], d))) if e[1] < 6 else ("WS%d(%s)" % (e[1] - 6, self.e(e[2], d)))
         if t == "R": return "R(%d)" % e[1]
         raise ValueError(e)
 
-    def c(self, c):
-        return "%s %s %s" % (self.e(c[1]), "===" if c[0] == "EQ" else "!==", self.e(c[2]))
+    def c(self, c, d):
+        return "%s %s %s" % (self.e(c[1], d), "===" if c[0] == "EQ" else "!==", self.e(c[2], d))
 
-    def block(self, b): return "{ " + " ".join(self.s(s) for s in b) + " }"
+    def block(self, b, d): return "{ " + " ".join(self.s(s, d) for s in b) + " }"
 
-    def s(self, s):
+    def s(self, s, d=0):
         t = s[0]
-        if t == "X": return self.e(s[1]) + ";"
-        if t == "G": return "L(%s);" % self.e(s[1])
+        if t == "X": return self.e(s[1], d) + ";"
+        if t == "G": return "L(%s);" % self.e(s[1], d)
         if t == "D":
-            tg = ", ".join("x%d" % x + ("" if d is None else " = " + self.e(d)) for x, d in s[1])
-            return "[%s] = [%s];" % (tg, self.args(s[2]))
-        if t == "I": return "if (%s) %s else %s" % (self.c(s[1]), self.block(s[2]), self.block(s[3]))
-        if t == "F": return "%sfor (x%d = 0; x%d !== %d; x%d = x%d + 1) %s" % (js_lbl(s[1]), s[2], s[2], s[3], s[2], s[2], self.block(s[4]))
-        if t == "W": return "%swhile (%s) %s" % (js_lbl(s[1]), self.c(s[2]), self.block(s[3]))
+            tg = ", ".join(self.var(x, d) + ("" if dd is None else " = " + self.e(dd, d)) for x, dd in s[1])
+            return "[%s] = [%s];" % (tg, self.args(s[2], d))
+        if t == "I": return "if (%s) %s else %s" % (self.c(s[1], d), self.block(s[2], d), self.block(s[3], d))
+        if t == "F": return "%sfor (x%d = 0; x%d !== %d; x%d = x%d + 1) %s" % (js_lbl(s[1]), s[2], s[2], s[3], s[2], s[2], self.block(s[4], d))
+        if t == "W": return "%swhile (%s) %s" % (js_lbl(s[1]), self.c(s[2], d), self.block(s[3], d))
         if t == "TR":
-            out = "try " + self.block(s[1])
+            out = "try " + self.block(s[1], d)
             if s[2] is not None:
-                out += " catch (e_) { x%d = C(e_); %s }" % (s[2][0], " ".join(self.s(z) for z in s[2][1]))
+                out += " catch (e_) { %s = C(e_); %s }" % (self.var(s[2][0], d), " ".join(self.s(z, d) for z in s[2][1]))
             if s[3] is not None:
-                out += " finally " + self.block(s[3])
+                out += " finally " + self.block(s[3], d)
             return out
         if t == "O":
             src = s[3]
-            return "%sfor (x%d of %s) %s" % (js_lbl(s[1]), s[2], "[%s]" % self.args(src[1]) if src[0] == "a" else js_spec(src[1]), self.block(s[4]))
-        if t == "RT": return "return %s;" % self.e(s[1])
-        if t == "TH": return "throw %s;" % self.e(s[1])
+            return "%sfor (x%d of %s) %s" % (js_lbl(s[1]), s[2], "[%s]" % self.args(src[1], d) if src[0] == "a" else js_spec(src[1]), self.block(s[4], d))
+        if t == "RT": return "return %s;" % self.e(s[1], d)
+        if t == "TH": return "throw %s;" % self.e(s[1], d)
         if t == "BK": return "break%s;" % js_tgt(s[1])
         if t == "CN": return "continue%s;" % js_tgt(s[1])
+        if t == "BL": return "{ " + scope_decl(s[1], s[2]) + " ".join(self.s(z, s[1]) for z in s[3]) + " }"
         raise ValueError(s)
 
 def js_func(body, mode, probe, decl):
@@ -187,10 +207,11 @@ def js_func(body, mode, probe, decl):
     if lets: head += "let " + ", ".join("x%d" % i for i in lets) + "; "
     if vars_: head += "var " + ", ".join("x%d" % i for i in vars_) + "; "
     head += "const B4 = d => (x4 = x4 + d); const B5 = d => (x5 = x5 + d); "
+    head += scope_decl(0, "u")
     for i in sorted(cap):
         head += "const K%d = () => x%d; " % (i, i)
     name = "function* GEN()" if mode == "gen" else "async function AGEN()"
-    return name + " { " + head + " ".join(j.s(s) for s in body) + " }"
+    return name + " { " + head + " ".join(j.s(s, 0) for s in body) + " }"
 
 # ----------------------------------------------------------------------------------------- walking
 def expr_nodes(e):
@@ -211,6 +232,7 @@ def sub_blocks(s):
     if t == "F": return [(4, s[4])]
     if t == "W": return [(3, s[3])]
     if t == "O": return [(4, s[4])]
+    if t == "BL": return [(3, s[3])]
     if t == "TR":
         out = [(1, s[1])]
         if s[2] is not None: out.append(("c", s[2][1]))
@@ -264,6 +286,23 @@ def async_ok(body):
 
 def count_yields(body):
     return sum(1 for s in body for e in stmt_exprs(s) if e[0] in ("Y", "YS"))
+
+def bad_scopes(body, depth=0):
+    """True if a scoped slot 6+d is used outside the block scope that declares it, a block's depth does not follow its
+    position, or an outer slot is a destructuring / catch target (not expressible through the closures)."""
+    def ebad(e):
+        return any(n[0] in ("V", "=", "B") and n[1] >= 6 and n[1] - 6 > depth for n in expr_nodes(e))
+    for s in body:
+        t = s[0]
+        if any(ebad(e) for e in own_exprs(s)): return True
+        if t == "D" and any(x >= 6 and x - 6 != depth for x, _ in s[1]): return True
+        if t == "TR" and s[2] is not None and s[2][0] >= 6 and s[2][0] - 6 != depth: return True
+        if t == "BL":
+            if s[1] != depth + 1 or bad_scopes(s[3], depth + 1): return True
+        else:
+            for _, b in sub_blocks(s):
+                if bad_scopes(b, depth): return True
+    return False
 
 def bad_jumps(body, labels=(), inloop=False):
     """True if a break/continue has no target (used by the shrinker to reject candidates)."""
@@ -347,6 +386,20 @@ def systematic_bodies():
     bs.append([O(0, ("t", spec(1, 1)), [G(y1), BK()]), G(y2)])
     bs.append([X(YS(spec(3, 0, 1, 0, []))), X(YS(spec(4, 1, 0, 0, []))), G(y1)])
     bs.append([G(A(YS(spec(5, 1, 0, 0, ["i1"])), YS(spec(6, 0, 0, 3, ["i2"]))))])
+    # block scopes with closure-captured let bindings named `s` at every level (shadowing): a finally / catch block must
+    # run in the scope of its try statement, whatever inner scope the body was suspended in (seeded mutation C09-m3)
+    s0, s1, s2 = SV_(0), SV_(1), SV_(2)
+    bs.append([X(ASG(6, L("sA"))), TR([BL(1, "sB", [G(A(s0, s1)), G(y1), G(L("snr"))])], None,
+                                      [G(s0), X(ASG(6, L("sA2"))), G(y2), G(s0)]), G(s0)])
+    bs.append([X(ASG(6, L("sA"))), TR([BL(1, "sB", [G(y1), X(ASG(7, A(s1, L("i1")))), G(A(s0, s1))])], (6, [G(s0), X(B(6, L("sc"))), G(y2), G(s0)]),
+                                      [G(s0), X(B(6, L("sf"))), G(y3), G(s0)]), G(s0)])
+    bs.append([X(ASG(6, L("sA"))), BL(1, "sB", [TR([BL(2, "sC", [G(CJ(s0, s1, s2)), X(ASG(6, A(s0, y1))), X(B(7, L("sp"))), G(y2)])],
+                                                     (1, [G(CJ(V(1), s0, s1)), X(ASG(7, L("sB2"))), G(y3)]),
+                                                     [G(CJ(s0, s1)), X(ASG(7, A(s1, L("sq")))), X(B(6, L("sr"))), G(y1), G(CJ(s0, s1))]), G(CJ(s0, s1))]), G(s0)])
+    bs.append([X(ASG(6, L("sA"))), TR([BL(1, "sB", [TR([BL(2, "sC", [G(y1), G(CJ(s0, s1, s2))])], None, [G(CJ(s0, s1)), X(B(7, L("si"))), G(y2)])])], None,
+                                      [G(s0), X(B(6, L("so"))), G(y3), G(s0)])])
+    bs.append([X(ASG(6, L("sA"))), F(3, 2, [TR([BL(1, "sB", [G(A(y1, s1)), CN()])], None, [G(s0), X(B(6, L("sl")))])]), G(s0)])
+    bs.append([X(ASG(6, L("sA"))), TR([O(0, ("t", spec(1, 1)), [BL(1, "sB", [G(CJ(V(0), s1, y1))])])], (1, [G(CJ(V(1), s0))]), [G(s0), X(ASG(6, L("sZ"))), G(y2), G(s0)])])
     # the seed-3 finding of round 1 (handleThrow's stale try-frame pointer after an inner generator's return()), generalised
     bs.append([TR([O(1, ("t", spec(5, 1, 0, 0, ["i1"])), [G(Y(y1))])], None, [F(3, 2, [G(L("spq")), G(ASG(1, A(Y(L("sa")), L("i7"))))])])])
     return bs
@@ -356,6 +409,16 @@ class Gen:
     def __init__(self, rng):
         self.r = rng
         self.nid = 0
+        self.depth = 0          # current block-scope nesting depth
+
+    def scope_touch(self):
+        """statements that read AND write the closure-captured `s` of every scope open here"""
+        r = self.r
+        ds = list(range(self.depth + 1))
+        out = [G(CJ(*[V(6 + i) for i in ds]))]
+        i = r.choice(ds)
+        out.append(X(ASG(6 + i, A(V(6 + i), L(r.choice(["sw", "i1"])))) if r.random() < 0.5 else B(6 + i, L("sv"))))
+        return out
 
     def val(self):
         return self.r.choice(["i0", "i1", "i2", "i3", "i5", "sa", "sbc", "u", "spq", "i7"])
@@ -368,17 +431,23 @@ class Gen:
         thr = 0 if is_gen else (self.r.randrange(2) if ret == 2 else self.r.randrange(4))
         return spec(self.nid, int(is_gen), ret, thr, items)
 
+    def avar(self):
+        """a variable to read / assign: x0, x1, x4, x5 or the `s` of one of the block scopes currently open"""
+        r = self.r
+        if r.random() < 0.35: return 6 + r.randrange(self.depth + 1)
+        return r.choice([0, 1, 4, 5])
+
     def expr(self, d, inloop=False):
         r = self.r
         if d <= 0:
-            return r.choice([L(self.val()), L(self.val()), V(r.choice([0, 1, 4, 5])), Y(L(self.val()))])
+            return r.choice([L(self.val()), L(self.val()), V(self.avar()), Y(L(self.val()))])
         k = r.random()
         if k < 0.30: return Y(self.expr(d - 1))
         if k < 0.45: return A(self.expr(d - 1), self.expr(d - 1))
         if k < 0.55: return CJ(*[(r.random() < 0.3, self.expr(d - 1)) for _ in range(r.randrange(1, 4))])
         if k < 0.63: return T(r.choice(["", "a"]), *[(self.expr(d - 1), r.choice(["", "b", "c"])) for _ in range(r.randrange(1, 3))])
-        if k < 0.72: return ASG(r.choice([0, 1, 4, 5]), self.expr(d - 1))
-        if k < 0.79: return B(r.choice([4, 5]), self.expr(d - 1))
+        if k < 0.72: return ASG(self.avar(), self.expr(d - 1))
+        if k < 0.79: return B(r.choice([4, 5] + [6 + i for i in range(self.depth + 1)]), self.expr(d - 1))
         if k < 0.84 and not inloop: return YS(self.spec())
         if k < 0.87: return ("R", r.randrange(3))
         return self.expr(0)
@@ -403,7 +472,7 @@ class Gen:
         if d <= 0 or k < 0.21: return G(self.expr(ed, ctx["loop"]))
         if k < 0.30: return X(self.expr(ed, ctx["loop"]))
         if k < 0.38:
-            tg = [(r.choice([0, 1, 4]), self.expr(1) if r.random() < 0.6 else None) for _ in range(r.randrange(1, 4))]
+            tg = [(r.choice([0, 1, 4, 6 + self.depth]), self.expr(1) if r.random() < 0.6 else None) for _ in range(r.randrange(1, 4))]
             src = [(r.random() < 0.25, self.expr(1) if r.random() < 0.5 else L("u")) for _ in range(r.randrange(0, 3))]
             return ("D", tg, src)
         if k < 0.46: return ("I", self.cond(1), self.block(d - 1, r.randrange(1, 3), ctx), self.block(d - 1, r.randrange(0, 2), ctx))
@@ -411,9 +480,18 @@ class Gen:
             lbl, c2 = self.label(ctx)
             return F(3, r.choice([1, 2, 2]), self.block(d - 1, r.randrange(1, 3), dict(c2, f=True)), lbl)
         if k < 0.74:
-            b = self.block(d - 1, r.randrange(1, 3), ctx)
-            c = (r.choice([0, 1]), self.block(d - 1, r.randrange(1, 3), ctx)) if r.random() < 0.55 else None
+            if self.depth < 3 and r.random() < 0.4:     # the try block is (or contains) an inner block scope
+                self.depth += 1
+                inner = self.block(d - 1, r.randrange(1, 3), ctx)
+                b = [BL(self.depth, r.choice(["sB", "sC", "i0", "u"]), inner)]
+                self.depth -= 1
+            else:
+                b = self.block(d - 1, r.randrange(1, 3), ctx)
+            c = (r.choice([0, 1, 6 + self.depth]), self.block(d - 1, r.randrange(1, 3), ctx)) if r.random() < 0.55 else None
             f = self.block(d - 1, r.randrange(1, 3), ctx) if (c is None or r.random() < 0.6) else None
+            if r.random() < 0.5:
+                if c is not None: c = (c[0], self.scope_touch() + c[1])
+                if f is not None: f = self.scope_touch() + f + (self.scope_touch() if r.random() < 0.5 else [])
             return TR(b, c, f)
         if k < 0.86:
             x = r.choice([0, 1])
@@ -423,6 +501,11 @@ class Gen:
                 src = ("t", self.spec())
             lbl, c2 = self.label(ctx)
             return O(x, src, self.block(d - 1, r.randrange(1, 3), c2), lbl)
+        if k < 0.885 and self.depth < 3:
+            self.depth += 1
+            inner = self.block(d - 1, r.randrange(1, 4), ctx)
+            self.depth -= 1
+            return BL(self.depth + 1, r.choice(["sB", "sC", "i0", "u"]), inner)
         if k < 0.90: return ("RT", self.expr(ed, ctx["loop"]))
         if k < 0.93: return ("TH", self.expr(1, ctx["loop"]))
         if ctx["loop"]:
@@ -432,6 +515,7 @@ class Gen:
 
     def body(self):
         r = self.r
+        self.depth = 0
         top = dict(loop=False, f=False, labels=[])
         b = self.block(r.choice([1, 2, 2, 3]), r.randrange(1, 5), top)
         if r.random() < 0.15:   # a while loop with a dedicated counter x2 (incremented first, so `continue` terminates)
@@ -603,7 +687,7 @@ def shrink(ctx, harness, model, case, i):
         for nb in sub_bodies(cur.body):
             budget -= 1
             if budget <= 0: break
-            if not nb or bad_jumps(nb): continue
+            if not nb or bad_jumps(nb) or bad_scopes(nb): continue
             c2 = Case(nb, cur.decl, cur.mode, cur.probe, cur.hists, cur.depths, cur.create, cur.tag)
             try:
                 if single_mismatch(ctx, harness, model, c2) is not None:
